@@ -74,6 +74,7 @@ def run(ctx):
     unit_rule(ctx, r_unit, prog, UNIT_FILES, 400)
 
     exact_rule(ctx, syn)
+    subslice_rule(ctx, syn)
 
     # ---------------- ERR
     r_err = ctx.rule("C12.ERR", "utf8byte / utf8byte_to_charpos return Ok only under an exact match on the cursor and otherwise fall through to Err; nothing in them can panic")
@@ -482,3 +483,90 @@ def div_rule(ctx, prog, rid="C12.DIV"):
             ctx.report(r_div, k, "%s calls create_milestones(%s) without a dominating `%s > 0` test: interval 0 divides by zero" % (cb.id, arg, arg), cb.file, t.get("line"))
     ctx.floor(r_div, len(sites), 3, "call sites of create_milestones")
 
+
+
+# ---------------------------------------------------------------------- SUBSLICE
+def subslice_rule(ctx, syn):
+    """subslice_utf8_offset is how a selection finds its own begin byte in the resource (every relative conversion starts
+    with it and `expect`s an answer).  Its three copies are evaluated on a grid of addresses: text at [base, base+len],
+    candidate slices starting from base-1 to base+len+1.  A slice that starts anywhere in the closed range - the empty
+    slice at the very end included: that is the empty selection at the end of a text - is at offset start-base; anything
+    else is not a sub-slice."""
+    from formula import Evaluator, StructVal, Unknown, Panic, some, is_some, fmt
+    r = ctx.rule("C12.SUBSLICE", "every copy of subslice_utf8_offset answers Some(start - base) for a slice that starts inside the text or at its end (closed range), None otherwise")
+    fns = [f for f in syn.fns if f.name == "subslice_utf8_offset" and f.body is not None]
+    M = 1 << 64
+
+    def h_text(ev, recv, args, node, env):
+        if isinstance(recv, StructVal) and "text" in recv and not args:
+            return recv["text"]
+        return NotImplemented
+
+    def h_as_ptr(ev, recv, args, node, env):
+        if isinstance(recv, StructVal) and recv.tyname == "Str":
+            return recv["ptr"]
+        return NotImplemented
+
+    def h_len(ev, recv, args, node, env):
+        if isinstance(recv, StructVal) and recv.tyname == "Str":
+            return recv["len"]
+        return NotImplemented
+
+    def h_same(ev, recv, args, node, env):
+        if isinstance(recv, StructVal) and recv.tyname == "Str":
+            return recv
+        return NotImplemented
+
+    def h_range(ev, recv, args, node, env):
+        if isinstance(recv, StructVal) and recv.tyname == "Str":
+            return StructVal("Range", {"start": recv["ptr"], "end": recv["ptr"] + recv["len"]})
+        return NotImplemented
+
+    def h_contains(ev, recv, args, node, env):
+        if isinstance(recv, StructVal) and recv.tyname == "Range" and len(args) == 1 and isinstance(args[0], int):
+            return recv["start"] <= args[0] < recv["end"]
+        if isinstance(recv, tuple) and recv and recv[0] == "range" and len(args) == 1 and isinstance(args[0], int):
+            hi = recv[2] + (1 if recv[3] else 0)
+            return recv[1] <= args[0] < hi
+        return NotImplemented
+
+    def h_wrap(op):
+        def h(ev, recv, args, node, env):
+            if isinstance(recv, int) and len(args) == 1 and isinstance(args[0], int):
+                return (recv + args[0]) % M if op == "+" else (recv - args[0]) % M
+            return NotImplemented
+        return h
+
+    def h_checked_sub(ev, recv, args, node, env):
+        if isinstance(recv, int) and len(args) == 1 and isinstance(args[0], int):
+            return some(recv - args[0]) if recv >= args[0] else None
+        return NotImplemented
+
+    hooks = {"text": h_text, "as_ptr": h_as_ptr, "len": h_len, "as_bytes": h_same, "as_str": h_same, "as_ptr_range": h_range, "contains": h_contains,
+             "wrapping_add": h_wrap("+"), "wrapping_sub": h_wrap("-"), "checked_sub": h_checked_sub, "addr": lambda ev, recv, args, node, env: recv if isinstance(recv, int) else NotImplemented}
+    n = 0
+    for f in fns:
+        who = "%s (%s)" % (f.qual, f.file)
+        ctx.functions_analysed.add(f.qual)
+        bad = None
+        for base, ln in ((1000, 0), (1000, 1), (1000, 5)):
+            for start in range(base - 1, base + ln + 2):
+                me = StructVal("Self", {"text": StructVal("Str", {"ptr": base, "len": ln})})
+                sub = StructVal("Str", {"ptr": start, "len": 0})
+                ev = Evaluator(hooks=hooks)
+                try:
+                    got = ev.run_body(f.body, {"self": me, "subslice": sub})
+                except (Unknown, Panic) as ex:
+                    bad = ("unevaluated", "could not be evaluated (%s)" % ex)
+                    break
+                n += 1
+                want = some(start - base) if base <= start <= base + ln else None
+                if got != want:
+                    bad = ("boundary", "answers %s for a slice starting at byte %d of a text of %d bytes (address %d, text at %d); expected %s" % (fmt(got), start - base, ln, start, base, fmt(want)))
+                    break
+            if bad:
+                break
+        r.hit(who, sample={"copy": who, "agrees": bad is None})
+        if bad:
+            ctx.report(r, "%s|%s|%s" % (f.file, (f.self_ty or f.trait or "?")[:40], bad[0]), "subslice_utf8_offset in %s %s: the empty selection at the end of a text (and every selection of an empty text) has its begin byte there, and every relative conversion on it `expect`s this answer" % (who, bad[1]), f.file, f.line)
+    ctx.floor(r, len(fns), 3, "copies of subslice_utf8_offset")
